@@ -732,7 +732,7 @@ def rule_ltl0(prog, P):
                         'hash order build inconsistent atoms; CTL* '
                         'formulas reach this tableau with CTL* classes)' % (
                             lang, cn, [repr(v)[:80] for v in vals],
-                            '' if off == 0 else ' - 1')), witness=v)
+                            '' if off == 0 else ' - 1')))
     r.inst(function=P.atoms_fn.short(), sort_key_is_height=keyok)
     if keyok:
         r.ok()
